@@ -267,7 +267,7 @@ def gen_cases(rng, tier):
         for ref in 'lgs':
             Ts = sorted(rng.uniform(260, 480) for _ in range(4))
             cases.append({'t': 'db', 'name': name, 'ref': ref, 'Ts': [round(T, 3) for T in Ts], 'Ps': [5e4, 1e5, 1e6]})
-    nsyn = 40 if tier == 'quick' else 400
+    nsyn = 100 if tier == 'quick' else 600
     for _ in range(nsyn):
         order = rng.choice(['Tm<Tref<Tb', 'Tm<Tb<Tref', 'Tref<Tm<Tb'])
         if order == 'Tm<Tref<Tb': Tm, Tb = rng.uniform(150, 290), rng.uniform(310, 500)
@@ -279,7 +279,7 @@ def gen_cases(rng, tier):
         Ts = sorted(rng.uniform(260, 480) for _ in range(4))
         cases.append({'t': 'syn', 'name': rng.choice(['Ethanol', 'Water', 'Octane', 'Acetone', 'Benzene']), 'ref': rng.choice('lgs'), 'order': order, 'Tm': round(Tm, 3), 'Tb': round(Tb, 3),
                       'cn': {'s': co(), 'l': co(), 'g': co()}, 'hvap': round(rng.uniform(1e4, 6e4), 1), 'Ts': [round(T, 3) for T in Ts], 'Ps': [5e4, 1e5, 1e6]})
-    nmix = 300 if tier == 'quick' else 6000
+    nmix = 1000 if tier == 'quick' else 10000
     for _ in range(nmix):
         def comp(): return [0.0 if rng.random() < 0.35 else round(10 ** rng.uniform(-2, 2), 4) for _ in MIX]
         n = comp()
